@@ -253,6 +253,48 @@ def run(ctx):
                 await asyncio.sleep(5)
                 o.check_memory(loop.time())
         sampler = asyncio.create_task(memory_sampler(), name='memory-sampler')
+
+        by_name = {u.username: u for u in users}
+        sessions = {}
+
+        async def read_status(b, g, quiescent=False):
+            """GET the batch / job group as its owner and hand the answer to the C06 'reported' oracle."""
+            owner = w.sql('SELECT user FROM batches WHERE id = %s AND NOT deleted', (b,))
+            if not owner or owner[0]['user'] not in by_name:
+                return
+            u = by_name[owner[0]['user']]
+            if u.username not in sessions:
+                sessions[u.username] = w.raw_session(u)
+            path = f'/api/v1alpha/batches/{b}' if g == 0 else f'/api/v1alpha/batches/{b}/job-groups/{g}'
+            t_sent = loop.time()
+            try:
+                resp = await sessions[u.username].request(
+                    'GET', w.mods.deploy_config.base_url('batch') + path,
+                    headers={'Authorization': f'Bearer {u.token}'})
+                txt = await resp.text()
+                if resp.status != 200 or not txt.startswith('{'):
+                    return
+                import json as _json
+                rep = _json.loads(txt)
+            except asyncio.CancelledError:
+                raise
+            except Exception:  # pylint: disable=broad-except
+                return
+            o.check_reported(b, g, rep, t_sent, quiescent=quiescent)
+
+        async def status_reader():
+            r = ctx.stream('reader')
+            while True:
+                await asyncio.sleep(1 + r.ticks(12000))
+                groups = w.sql('SELECT job_groups.batch_id AS b, job_groups.job_group_id AS g FROM job_groups '
+                               'LEFT JOIN batch_updates ON batch_updates.batch_id = job_groups.batch_id AND '
+                               'batch_updates.update_id = job_groups.update_id '
+                               'WHERE job_groups.update_id IS NULL OR batch_updates.committed '
+                               'ORDER BY job_groups.batch_id, job_groups.job_group_id')
+                if groups:
+                    k = groups[r.draw(len(groups))]
+                    await read_status(k['b'], k['g'])
+        reader = asyncio.create_task(status_reader(), name='status-reader')
         done, pending = await asyncio.wait(clients, timeout=400)
         for t in done:
             if t.exception() is not None:
@@ -297,6 +339,17 @@ def run(ctx):
                                 f'instances {w.sql("SELECT name, state FROM instances WHERE NOT removed")}')
             await asyncio.sleep(5)
         ctx.extra['heal_seconds'] = round(loop.time() - t_heal, 1)
+        # quiescent: every committed job is terminal and no fault is active.  What the API reports must now agree
+        # with the recount exactly (completion, job count, tallies) for every batch and job group.
+        reader.cancel()
+        if not left:
+            await asyncio.sleep(15)
+            for k in w.sql('SELECT job_groups.batch_id AS b, job_groups.job_group_id AS g FROM job_groups '
+                           'LEFT JOIN batch_updates ON batch_updates.batch_id = job_groups.batch_id AND '
+                           'batch_updates.update_id = job_groups.update_id '
+                           'WHERE job_groups.update_id IS NULL OR batch_updates.committed '
+                           'ORDER BY job_groups.batch_id, job_groups.job_group_id'):
+                await read_status(k['b'], k['g'], quiescent=True)
         # cancelled batches are complete; always-run jobs of cancelled batches ran
         for r in w.sql("SELECT b.id, b.state FROM batches b INNER JOIN job_groups_cancelled c ON c.id = b.id AND "
                        "c.job_group_id = 0"):
